@@ -434,6 +434,11 @@ pub fn perturb(r: &mut Rng, base: &[u32], max_limit: u32) -> Vec<u32> {
     if v[3] < 9 {
         v[3] = 15;
     }
+    // the estimator pairs lazy matching with chain depths of at least 17; zlib-compatible lazy
+    // matching quarters the depth for "good" matches, and a depth of 0 is outside its range
+    if v[18] != 0 && v[2] != 0 && v[14] < 4 {
+        v[14] = 4;
+    }
     v
 }
 
